@@ -112,6 +112,10 @@ def make_dataset(conv, shape, variant):
             'dangling': dict(),
             # a second mesh topology variable (a 1-D network, a coarser mesh) after the one the dataset is about
             'secondmesh': dict(supply=('edge_node',)),
+            # Conventions lists several conventions; the convention is the one the library detects by itself
+            'listed': dict(supply=('edge_node',)),
+            # start_index stored as the text "0"
+            'textbase': dict(supply=('edge_node',), start_index=0, start_index_as_text=True),
         }[mode]
         ds = builders.ugrid(mesh, **kw)
         if mode == 'secondmesh':
@@ -126,6 +130,12 @@ def make_dataset(conv, shape, variant):
             ds['mesh'].attrs['edge_node_connectivity'] = 'edge_node_that_was_dropped'
             ds['mesh'].attrs['edge_face_connectivity'] = 'edge_face_that_was_dropped'
         nodes, faces = builders.MESHES[mesh]
+        if mode == 'listed':
+            ds.attrs['Conventions'] = 'CF-1.8 UGRID-1.0 Deltares-0.10' if mesh == 'tq' else 'CF-1.6, UGRID-1.0'
+            for nname, sn, un in (('node_x', 'longitude', 'degrees_east'), ('node_y', 'latitude', 'degrees_north')):
+                ds[nname].attrs.update(standard_name=sn, units=un)
+            exp = {'face': (len(faces),), 'node': (len(nodes),), 'edge': (len(builders.mesh_edges(faces)[0]),)}
+            return ds, ds.ems, exp
         exp = {'face': (len(faces),), 'node': (len(nodes),)}
         if mode not in ('noedge', 'dangling'):
             exp['edge'] = (len(builders.mesh_edges(faces)[0]),)
@@ -323,6 +333,8 @@ def cases(tier):
         configs.append(('ugrid', mesh, 'dangling', ['face', 'node']))
         if mesh in ('tq', 'tqp'):
             configs.append(('ugrid', mesh, 'secondmesh', ['face', 'node', 'edge']))
+            configs.append(('ugrid', mesh, 'listed', ['face', 'node', 'edge']))
+            configs.append(('ugrid', mesh, 'textbase', ['face', 'edge']))
         configs.append(('ugrid', mesh, 'edgedim', ['face', 'node', 'edge']))
         configs.append(('ugrid', mesh, 'edgeimplied', ['face', 'node', 'edge']))
         if mesh not in ('tri', 'qqq', 'fan'):
